@@ -281,7 +281,7 @@ def run(tier, replay=None):
         import json
         print(json.dumps(json.load(open(replay)), indent=1)[:3000])
         return 0
-    proof = common.prove(report, "C04", ["protoconsts", "varconsts", "jis8", "pyhsmshdr", "rxloop"], extra_targets=["Run/C04Run.vo"])
+    proof = common.prove(report, "C04", ["protoconsts", "varconsts", "jis8", "pyhsmshdr", "rxloop", "dispatcher"], extra_targets=["Run/C04Run.vo"])
     ok, log = common.coq_make(["Run/C04Run.vo"])
     if not ok:
         report.violation({"kind": "broken-obligation", "obligation": "model Run/C04Run.vo does not build against the regenerated constants",
@@ -297,6 +297,23 @@ def run(tier, replay=None):
     for b in BIG_SENT:
         if not b["identical"]:
             report.violation({"kind": "counterexample", "what": "the bytes handed to Connection.send_data by send_message are not the frame of the message (block encoding, judged against E37 by the HFrame cases)", **b}, True, tag="bigsent")
+    # "none lost" behind the framing: a frame queued for dispatch exactly when the dispatcher thread found its queue empty (forced through the
+    # queue object, the probe of C06) is handed over like any other, not only when later traffic wakes the thread
+    def lost_wakeup_probe():
+        import c06
+        link = c06.Link()
+        try:
+            link.up()
+            return c06.arrival_at_empty_check_case(link)
+        finally:
+            link.rig.stop()
+    twedged = []
+    inj = common.guarded(lost_wakeup_probe, "a frame queued at the dispatcher's empty check", twedged, 60.0)
+    common.report_wedged(report, twedged, proof)
+    report.coverage["frame_queued_at_the_empty_check"] = inj
+    if inj and inj["injected"] and inj["delivered_before_the_next_block"] != inj["expected_first"]:
+        report.violation({"kind": "counterexample", "what": "a complete frame queued for dispatch at the moment the dispatcher found its queue empty was not delivered until a later frame arrived", **inj,
+                          "broken_obligation": proof.get("broken")}, True, tag="lostwakeup")
     bad, stats = evaluate(lits, "c04")
     c16.decide_lits(report, "C04", lits, bad, stats, proof, SPEC_CODES, MODEL_CODES)
     import hashlib
